@@ -62,7 +62,8 @@ MANIFEST = {
     "note": ("Trusted: Coq kernel, extraction (ExtrOcamlBasic+ExtrOcamlString), Go harness (value construction, canonical printers, "
              "address-range aliasing oracle). Modelled not verified: strings.go, the slice of strconv.Atoi in Base/Strconv.v, Go's append "
              "growth (capacity after growth is not predicted), ByteBuffer hand-outs as fresh allocations (C07). Nil pointers, foreign "
-             "types, nil text pointers and multi-segment paths are modelled (panics included) and compared in mode D but the property is "
-             "silent about them. No axioms."),
+             "types, nil text pointers and multi-segment paths are modelled (a nil pointer reads as the nil slice and is refused by the "
+             "writers since /repo d76be51; the panics of the code before are kept behind the model's v_nil_ptr flag) and compared in mode D "
+             "but the property is silent about them. No axioms."),
     "technique": "Rocq refinement proof (model vs abstract sequence, induction over operation histories) + extracted-model correspondence",
 }
